@@ -21,7 +21,7 @@ func init() {
 	Registry["C13"] = Spec{
 		Fn:          c13,
 		Level:       "fault_enumeration",
-		Rule:        "configurations: client revision x server revision over every feature-threshold neighbour (all pairs in thorough, a covering sample in quick) x credentials/database/quota-key strings (empty, long, non-UTF8) x Connect and Dial. Answers: hello; hello delayed by 1..5 read-deadline expiries (far below the handshake timeout); exception chain; every other server packet kind; garbage; the hello cut after every byte (then EOF or reset); immediate EOF; silence until a short handshake timeout. Oracle: after success the follow-up query is parsed by the reference codec at min(c,s), a Progress packet encoded at min(c,s) is decoded exactly, ServerInfo() equals the hello (fields gated by the client's revision), the addendum is present iff min(c,s) >= 54458 and has reached the server when Connect/Dial returns (before any later request), hello fields are as configured; after failure: non-nil error (carrying the exception), nil client, a dialed connection closed, no library goroutine left. Non-trivial = c != s or a failing answer; distinct = (c, s, answer kind)",
+		Rule:        "configurations: client revision x server revision over every feature-threshold neighbour (all pairs in thorough, a covering sample in quick) x credentials/database/quota-key strings (empty, long, non-UTF8) x Connect and Dial. Answers: hello; hello delayed by 1..5 read-deadline expiries (far below the handshake timeout), also arriving in pieces with pauses longer than the read timeout inside it; exception chain; every other server packet kind; garbage; the hello cut after every byte (then EOF or reset); immediate EOF; silence until a short handshake timeout. Oracle: after success the follow-up query is parsed by the reference codec at min(c,s), a Progress packet encoded at min(c,s) is decoded exactly, ServerInfo() equals the hello (fields gated by the client's revision), the addendum is present iff min(c,s) >= 54458 and has reached the server when Connect/Dial returns (before any later request), hello fields are as configured; after failure: non-nil error (carrying the exception), nil client, a dialed connection closed, no library goroutine left. Non-trivial = c != s or a failing answer; distinct = (c, s, answer kind)",
 		Assumptions: []string{"handshake timeouts are real but short (150 ms) and only the returned error / closed state is judged, never elapsed time"},
 		MinDistinct: 200,
 	}
@@ -121,7 +121,18 @@ func c13Success(r *core.Run, ci int64, rng *rand.Rand, crev, srev int, dial bool
 				items = append(items, simnet.Item{Gate: "hello-delay", Hold: true})
 				time.AfterFunc(60*time.Millisecond, func() { sim.Conn.Release("hello-delay") })
 			}
-			return append(items, simnet.Item{Data: sim.Srv.ServerHelloBytes(crev)})
+			hb := sim.Srv.ServerHelloBytes(crev)
+			if ci%3 == 0 && len(hb) > 2 {
+				// the hello itself arrives in pieces with pauses longer than ReadTimeout between them
+				// (virtual expiries: they fire only if a read deadline is still armed inside the packet)
+				a := 1 + int(ci/3)%(len(hb)-1)
+				items = append(items, simnet.Item{Data: hb[:1]}, simnet.Item{Timeout: true})
+				if a > 1 {
+					items = append(items, simnet.Item{Data: hb[1:a]}, simnet.Item{Timeout: true})
+				}
+				return append(items, simnet.Item{Data: hb[a:]})
+			}
+			return append(items, simnet.Item{Data: hb})
 		}
 	}
 	prog := ref.Progress{Rows: 1 + c17U64(rng)%1000, Bytes: c17U64(rng) % 100000, TotalRows: 7, WroteRows: 11, WroteBytes: 13, ElapsedNs: 17}
